@@ -242,6 +242,34 @@ def check_C04(ctx, rep):
             ok, w = all_paths(st, lambda S: has_cmp(S, 'eq', lambda l: is_field(l, 'current_state', 'MachineRuntime'),
                                                    lambda r: r[0] == 'cdef' and r[1].endswith('STATE_END'), False))
             rep.ob('C04.R4', tr, 'no-%s-after-END' % callee_str(f).split('::')[-1], ok, '')
+    # a machine that samples STATE_END ends: the END constant is stored as its current state (this store is what makes the first
+    # check of transition() absorb every later event), for its own index, and the step counts as a change
+    end_stores = [(pe, v, site) for (pe, v, site) in field_stores(tfa, 'current_state', 'MachineRuntime')
+                  if (isinstance(v, tuple) and v and v[0] == 'cdef' and v[1].endswith('STATE_END')) or is_const(v, int(prog.const_val('maybenot::constants::STATE_END')))]
+    rep.count_floor('C04.R4', 'stores of STATE_END to current_state in transition', len(end_stores), 1)
+    for (pe, v, site) in end_stores:
+        st = pfh.at(site[0], site[1])
+        sampled_end = lambda S: any((f[0] in ('eqc',) and contains(f[1], lambda y: is_call(y, '::sample_state')) and str(int(prog.const_val('maybenot::constants::STATE_END'))) in str(f[2])) or
+                                    (f[0] == 'cmp' and f[1] == 'eq' and f[5] is True and contains(f[2], lambda y: is_call(y, '::sample_state')) and
+                                     ((isinstance(f[3], tuple) and f[3] and f[3][0] == 'cdef' and f[3][1].endswith('STATE_END')))) for f in S)
+        ok, w = all_paths(st, sampled_end)
+        rep.ob('C04.R4', tr, 'END-stored-when-END-is-sampled', ok and bool(st), '' if ok else 'witness: ' + show_facts(w))
+    # ... and every path on which the sampled target is STATE_END passes such a store before returning
+    ends_b = {site[0] for (pe, v, site) in end_stores}
+    for r_ in tfa.cfg.returns:
+        for S in pfh.at_entry(r_):
+            if any((f[0] == 'eqc' and contains(f[1], lambda y: is_call(y, '::sample_state')) and str(int(prog.const_val('maybenot::constants::STATE_END'))) in str(f[2])) for f in S):
+                pass
+    from .rules_limits import count_between
+    # the switch on the sampled target: its STATE_END edge leads to the store on every path
+    for b in sorted(tfa.cfg.reach):
+        t = tfa.blocks[b]['t']
+        if t['k'] == 'switch':
+            e = tfa.operand(t['d'], (b, len(tfa.blocks[b]['s'])))
+            if contains(e, lambda y: is_call(y, '::sample_state')) and any(x[0] == str(int(prog.const_val('maybenot::constants::STATE_END'))) for x in t['ts']):
+                tgt = [x[1] for x in t['ts'] if x[0] == str(int(prog.const_val('maybenot::constants::STATE_END')))][0]
+                okp = all(count_between(tfa, tgt, r_, ends_b)[0] >= 1 for r_ in tfa.cfg.returns if tfa.cfg.can_reach(tgt, r_)) if ends_b else False
+                rep.ob('C04.R4', tr, 'sampled-END-is-always-stored', okp, 'every path from the STATE_END case to a return stores STATE_END')
     # sample_state happens behind the END check as well (an ended machine does not even draw)
     rep.rule('C04.R5', 'helper contracts: MachineId::into_raw/from_raw are identity wrappers and num_machines is machines.as_ref().len() (ids name existing machines)')
     check_helpers_ids(ctx, rep, 'C04.R5')
